@@ -59,6 +59,7 @@ inductive Obtained : Val → Prop where
   | int (n) : Obtained (.int n)
   | str (s) : Obtained (.str s)
   | alwaysEq (i) : Obtained (.alwaysEq i)
+  | pretender (i) : Obtained (.pretender i)
   | list {xs} : (∀ x ∈ xs, Obtained x) → Obtained (.list xs)
   | tuple {xs} : (∀ x ∈ xs, Obtained x) → Obtained (.tuple xs)
   | set {xs} : (∀ x ∈ xs, Obtained x) → Obtained (.set xs)
